@@ -18,6 +18,10 @@ def gen_atom(rng, liberal=False):
         s = '-'.join(['abc', s, 'hyph-en'])
     if rng.random() < 0.05:
         s = rng.choice(['#b0101', '#xAF', '12.50', ':named', 'éλx', '\U0001F600q'])
+    if rng.random() < 0.04:
+        # characters that Python's str methods (strip, split, isspace) take for white space but SMT-LIB and ddSMT's reader
+        # do not: such a token is an atom like any other
+        s = rng.choice(['\x0c', '\x0b', '\x1c', '\x1f', '\x85', '\xa0', '\u2028', '\u3000', '\x0c\xa0', 'a\xa0', '\x0cb'])
     return s        # (since fix F41 the scanner ends an atom before a quote or a bar: no liberal atoms any more)
 
 
